@@ -109,6 +109,8 @@ def gen_run(rng, cfg):
                     op["gencls"] = rng.choice(["plain", "plain", "Upper", "UpperMore"])
             elif opk == "parse_file":
                 op["use_cpp"] = rng.random() < 0.4
+                if rng.random() < 0.3:
+                    op["default_parser"] = True  # parse_file(filename) without parser=
                 if faulty and rng.random() < 0.25:
                     k = rng.choice(["cpp-missing", "cpp-fails", "short-read"] if op["use_cpp"] else ["open-error", "decode-error", "short-read"])
                     op["io_fault"] = {"kind": k}
